@@ -789,8 +789,9 @@ class SqlEngine:
         if a.sort == "null":
             return a
         if self.decide(a.null):
-            return SV({"INT": "int", "INTEGER": "int", "BIGINT": "int", "TEXT": "str", "VARCHAR": "str", "DATE": "date",
-                       "TIMESTAMP": "ts", "BOOLEAN": "bool"}.get(tname, "null"), a.v if a.sort != "str" else CStr([]), True)
+            tsort = {"INT": "int", "INTEGER": "int", "BIGINT": "int", "TEXT": "str", "VARCHAR": "str", "DATE": "date",
+                     "TIMESTAMP": "ts", "BOOLEAN": "bool"}.get(tname, "null")
+            return SV(tsort, CStr([]) if tsort == "str" else (a.v if a.sort != "str" else 0), True)
         if tname in ("INT", "INTEGER", "BIGINT"):
             if a.sort == "int":
                 return a
